@@ -74,11 +74,28 @@ fn make_object(ctx: &mut Ctx, rng: &mut Rng) -> Option<(ObjectFile, Json, &'stat
         let case = Json::obj().set("kind", "linked").set("tree", t.show()).set("debug", debug).set("sources", Json::Arr(files.iter().map(|f| Json::from(f.r.text.as_str())).collect()));
         Some((o, case, "linked"))
     } else if rng.chance(1, 400) {
+        // one very large block, or a very long run of consecutive statement lines: chunk lengths in the object file (words x 3 bytes,
+        // line-table entries x 2 bytes) pass 16-bit limits
+        let debug = rng.chance(3, 4);
+        let (text, what) = if rng.bool() {
+            let n = *rng.pick(&[21_845u32, 21_846, 30_000, 32_767, 32_768, 40_000, 60_000]);
+            (format!(".orig x0200\nBIG .blkw {n}\nAFTER .fill BIG\n.end\n"), format!("one block of {} words", n + 1))
+        } else {
+            let n = *rng.pick(&[32_767usize, 32_768, 33_000, 40_000]);
+            let mut t = String::with_capacity(n * 10); t.push_str(".orig x0200\n"); for i in 0..n { t.push_str(if i % 3 == 0 { ".fill 7\n" } else { "ADD R0,R0,#1\n" }); } t.push_str(".end\n");
+            (t, format!("{n} consecutive one-word statement lines"))
+        };
+        let o = match crate::asmutil::asm(&text, debug) { Ok(Ok(o)) => o, _ => return None };
+        ctx.count("objects.very-large-block-or-line-run");
+        let case = Json::obj().set("kind", "assembled").set("debug", debug).set("source_shape", what);
+        Some((o, case, if debug { "assembled-debug" } else { "assembled-nodebug" }))
+    } else if rng.chance(1, 400) {
         // a source longer than 64 KiB and/or with more than 65535 lines: byte offsets and line numbers stored with the
         // debug symbols (and the label positions of an .external-declaring file) cross the 16-bit boundary
         let debug = rng.chance(3, 4);
         let g = gen_object(rng, &GenOpts { big_padding: false, ..GenOpts::default() }, debug)?;
-        let (pad, what) = match rng.below(4) {
+        let (pad, what) = match rng.below(5) {
+            4 => { let n = *rng.pick(&[65_534usize, 65_535, 65_536, 70_000]); (format!(".orig x4000\nQ{} .fill 1\n.end\n", "a".repeat(n)), format!("a block with a label of {} bytes", n + 1)) }
             0 => { let n = 65_000 + rng.usize(1_100); (format!("{}\n", ";".repeat(n)), format!("one comment line of {n} bytes")) }
             1 => { let n = 65_400 + rng.usize(400); ("\n".repeat(n), format!("{n} empty lines")) }
             2 => { let n = 700 + rng.usize(700); (format!("; {}\n", "padding ".repeat(12)).repeat(n), format!("{n} comment lines")) }
@@ -140,6 +157,6 @@ fn run18(ctx: &mut Ctx) {
 
 fn guard(m: &Merged, _t: Tier) -> Vec<String> {
     let mut out = vec![];
-    for k in ["roundtrip.linked", "roundtrip.assembled-debug", "roundtrip.assembled-nodebug", "objects.with-relocations", "objects.with-external-decl", "objects.multi-block", "sources.crlf", "sources.non-ascii", "sources.backslash", "sources.quote", "objects.source-over-64KiB-or-65535-lines"] { need(m, &mut out, k, 20); }
+    for k in ["roundtrip.linked", "roundtrip.assembled-debug", "roundtrip.assembled-nodebug", "objects.with-relocations", "objects.with-external-decl", "objects.multi-block", "sources.crlf", "sources.non-ascii", "sources.backslash", "sources.quote", "objects.source-over-64KiB-or-65535-lines", "objects.very-large-block-or-line-run"] { need(m, &mut out, k, 20); }
     out
 }
